@@ -651,6 +651,14 @@ class Check:
         self.rundir = os.path.join(VERIF, '_run', '%s-%d' % (self.pid, os.getpid()))
         shutil.rmtree(self.rundir, ignore_errors=True)
         os.makedirs(self.rundir)
+        # every temporary file of this run (workers' mkdtemp included: pool workers end without running their
+        # atexit handlers) goes below one private directory that cleanup() removes
+        import tempfile
+        self.tmpdir = os.path.join(tempfile.gettempdir(), 'verif-%s-%d' % (self.pid, os.getpid()))
+        shutil.rmtree(self.tmpdir, ignore_errors=True)
+        os.makedirs(self.tmpdir)
+        os.environ['TMPDIR'] = self.tmpdir
+        tempfile.tempdir = None
         self.logs = []
         self.violations = []   # dicts
         self.known_hits = {}   # finding id -> count
@@ -685,6 +693,7 @@ class Check:
 
     def cleanup(self):
         shutil.rmtree(self.rundir, ignore_errors=True)
+        shutil.rmtree(self.tmpdir, ignore_errors=True)
 
 
 def describe(mod, fn, arg):
